@@ -382,9 +382,14 @@ def do_history(run, impl, model, wd, name, crc, ops, ncut, nflip, corpus_cases=N
             ok = True
         if not ok:
             cl = classify(hist, r, kind)
-            if cross and cl == "other":
-                cl = "cross-config"
+            if cross:
+                cl = "cross-config" if cl in ("other", "cut-inside-savepoint", "cut-inside-savepoint-crc") else cl
                 why = "log written with [%s], recovered by a process opened with [%s]: %s" % (W.cfg_text(crc), W.cfg_text(rcrc), why)
+                states = [hist["base"]] + [d for _, d in sps]
+                got = W.fields(r["impl_rec"]).get("dump")
+                which = [j for j in range(len(states)) if states[j] == got]
+                if kind == "cut" and which and which[0] < min(allowed):
+                    why += " - the operations committed by savepoints #%d..#%d (iwkv_sync / db creation returned success) are lost" % (which[0] + 1, min(allowed))
             run.cov.setdefault("violations_by_class", {})
             run.cov["violations_by_class"][cl] = run.cov["violations_by_class"].get(cl, 0) + 1
             if run.cov["violations_by_class"][cl] > 2:
